@@ -168,11 +168,11 @@ func decodeObs(p *rtp.Packet, err error) string {
 	if err != nil {
 		return "error"
 	}
-	s := fmt.Sprintf("V%d P%v X%v M%v PT%d seq%d ts%d ssrc%d csrc%v prof%#x pad%d payload=%x ids=%v",
+	s := fmt.Sprintf("V%d P%v X%v M%v PT%d seq%d ts%d ssrc%d csrc%v prof%#x pad%d payload=%s ids=%v",
 		p.Version, p.Padding, p.Extension, p.Marker, p.PayloadType, p.SequenceNumber, p.Timestamp, p.SSRC,
-		append([]uint32{}, p.CSRC...), p.ExtensionProfile, p.PaddingSize, p.Payload, p.GetExtensionIDs())
+		append([]uint32{}, p.CSRC...), p.ExtensionProfile, p.PaddingSize, hb(p.Payload), p.GetExtensionIDs())
 	for _, id := range p.GetExtensionIDs() {
-		s += fmt.Sprintf(" %d=%x", id, p.GetExtension(id))
+		s += fmt.Sprintf(" %d=%s", id, hb(p.GetExtension(id)))
 	}
 	// every element positionally (duplicates included) through a re-marshal when possible
 	s += fmt.Sprintf(" next=%d", len(p.Extensions))
@@ -188,7 +188,7 @@ func headerObs(h *rtp.Header, n int, err error) string {
 		h.Version, h.Padding, h.Extension, h.Marker, h.PayloadType, h.SequenceNumber, h.Timestamp, h.SSRC,
 		append([]uint32{}, h.CSRC...), h.ExtensionProfile, h.GetExtensionIDs())
 	for _, id := range h.GetExtensionIDs() {
-		s += fmt.Sprintf(" %d=%x", id, h.GetExtension(id))
+		s += fmt.Sprintf(" %d=%s", id, hb(h.GetExtension(id)))
 	}
 
 	return s
